@@ -155,7 +155,8 @@ func (p *c19) history(i int) c19history {
 		sized = append(sized, n)
 	}
 	names := []string{"main", "part1", "part2", "layout", "macros", "base0", "broken-lex", "broken-parse", "includes-broken", "extends-broken", "imports-broken", "runtime-fail", "many", "no-such-template", "subdir", "", "includes-dir", "includes-empty", "extends-dir", "subdir/inner",
-		"linkout.twig", "linkdir/o.twig", "linkin.twig", "dangling.twig", "linkdir", "includes-linkout", "../" + "x", "subdir/../main", "./main", "subdir//inner", "../c19-outside.twig", "subdir/../../c19-outside.twig", "includes-dotdot"}
+		"linkout.twig", "linkdir/o.twig", "linkin.twig", "dangling.twig", "procversion.twig", "procstatus.twig", "proccpuinfo.twig", "includes-proc", "linkdir", "includes-linkout", "../" + "x", "subdir/../main", "./main", "subdir//inner", "../c19-outside.twig", "subdir/../../c19-outside.twig", "includes-dotdot"}
+	h.files["includes-proc"] = "a {% include 'procversion.twig' %} b {% include 'procstatus.twig' %}"
 	h.files["includes-dotdot"] = "a {% include '../c19-outside.twig' %} b"
 	h.files["includes-linkout"] = "a {% include 'linkout.twig' %} b {% include 'linkdir/o.twig' %}"
 	n := 1 + r.Intn(p.pick(50, 200))
@@ -236,6 +237,10 @@ func (p *c19) Run(i int) (res fw.Result) {
 	os.Symlink(outside, filepath.Join(dir, "linkdir"))
 	os.Symlink(filepath.Join(dir, "main"), filepath.Join(dir, "linkin.twig"))
 	os.Symlink(filepath.Join(dir, "nowhere"), filepath.Join(dir, "dangling.twig"))
+	// files whose size is not the number of bytes that can be read from them (the kernel's, through links)
+	os.Symlink("/proc/version", filepath.Join(dir, "procversion.twig"))
+	os.Symlink("/proc/self/status", filepath.Join(dir, "procstatus.twig"))
+	os.Symlink("/proc/cpuinfo", filepath.Join(dir, "proccpuinfo.twig"))
 	// an existing file next to the root, reachable from inside through "..": whether the loader serves it or
 	// refuses it, it must not keep it open (the same file for every history and worker: written, never removed)
 	if shared := filepath.Join(filepath.Dir(dir), "c19-outside.twig"); true {
